@@ -1,4 +1,4 @@
-CONSTANTS MaxN = 4
+CONSTANTS MaxN = 3
 SPECIFICATION Spec
 INVARIANT LatticeOK
 INVARIANT Replay
